@@ -4,10 +4,35 @@ package main
 
 import (
 	"os"
+	"sort"
 	"strconv"
 	"strings"
 	"sync"
 )
+
+// c08NormRuns sorts, by text, every run of consecutive entry tokens that carry one metric (field 3):
+// sort.Slice is not stable, so the order inside such a run is unspecified; the order of the metrics
+// themselves is printed as stored (an unsorted slice stays visible). The Lean side prints slices
+// the same way (`renderGroup`).
+func c08NormRuns(toks []string) []string {
+	metric := func(t string) string {
+		f := strings.Split(t, ",")
+		if len(f) < 4 {
+			return ""
+		}
+		return f[3]
+	}
+	out := append([]string(nil), toks...)
+	for i := 0; i < len(out); {
+		j := i + 1
+		for j < len(out) && metric(out[j]) == metric(out[i]) {
+			j++
+		}
+		sort.Strings(out[i:j])
+		i = j
+	}
+	return out
+}
 
 // Concurrency stress op shared by the c08 / c09 / c10 engines:
 //
